@@ -72,6 +72,15 @@ def cases(tier, seed):
         if tier == 'quick' and rng.random() < 0.5:
             continue
         add('$reduce(a, %s%s)' % (f, init), {} if sub is None else {'a': sub}, ('protocol', 'reduce'))
+    # value equality ($distinct, and = / in on the same values): exhaustive pairs and triples over a domain where objects and
+    # arrays are subsets / prefixes / permutations of one another and scalars differ only in kind
+    eqdom = [{}, {'a': 1}, {'a': 1, 'b': 2}, {'b': 2, 'a': 1}, {'a': '1'}, {'a': {'a': 1}}, {'a': {}}, [], [1], [1, 2], [2, 1], [[1]], [{}], 1, '1', True, 1.0, 0, False, '', 'a']
+    for xs in itertools.product(eqdom, repeat=2):
+        add('$distinct(a)', {'a': list(xs)}, ('distinct-eq',)); add('$count($distinct(a))', {'a': list(xs)}, ('distinct-eq',))
+        add('a[0] = a[1]', {'a': [[x] for x in xs]} if False else {'a': list(xs)}, ('distinct-eq',))
+    for xs in (itertools.product(eqdom[:12], repeat=3) if tier != 'quick' else [tuple(rng.choice(eqdom) for _ in range(3)) for _ in range(400)]):
+        add('$distinct(a)', {'a': list(xs)}, ('distinct-eq',))
+        add('$distinct([a, a])', {'a': list(xs)}, ('distinct-eq',))
     # scalars in array position
     for v in [5, 'x', True, {'a': 1}]:
         for e in unary:
